@@ -117,9 +117,9 @@ CLAIMS.update({
     technique="Coq proof (query step lemmas + CachedRw invariant) + differential bench / op-sequence correspondence + reply oracle + scripted broadcast scenarios on mirrored broadcaster.rs vs Broadcast.v + task-set trace replay in TaskSetConc.v",
     ref="DESIGN.md §5 C14"),
  "C19": dict(
-    text="Coq theorems (task level): in every reachable state of TaskSM the invariant holds, and once every handle is gone the memory has been freed exactly once, the future dropped exactly once, nothing accessed after release (c19_cancel_releases, c19_no_leak_no_double_free) - cancellation racing with wakers and a runner is what an executor drop does to each task. Tie: cancel-heavy schedules on the verbatim task.rs; the Simulation is dropped at the end of fault / deadlock / hierarchy / scheduling benches (pending actions, blocked senders, pending queries) on 1..16 threads: every added model dropped exactly once, no model code afterwards, the drop returns (watchdog).",
+    text="Coq theorems (task level): in every reachable state of TaskSM the invariant holds, and once every handle is gone the memory has been freed exactly once, the future dropped exactly once, nothing accessed after release (c19_cancel_releases, c19_no_leak_no_double_free) - cancellation racing with wakers and a runner is what an executor drop does to each task. Tie: cancel-heavy schedules on the verbatim task.rs; the Simulation is dropped at the end of fault / deadlock / hierarchy / scheduling benches (pending actions, blocked senders, pending queries) on 1..16 threads: every added model dropped exactly once, no model code afterwards, the drop returns (watchdog). One-shot reply slot (Slot.v, finite; constants and write mask generated from util/slot.rs by T6): for every interleaving of writer and reader no access after free, no double free, no double drop, and once both handles are gone the allocation is freed and a written value was read or dropped (c19_slot_released_exactly_once, c19_slot_no_misuse, c19_slot_value_read_at_most_once), plus scheduled exploration of the verbatim slot.rs with a contract oracle.",
     note=DNOTE + "PARTIAL: the executor-level drop (ExecDrop: models, queued messages and pending futures each released once) is not modelled, only observed: drop counts of models and of undelivered messages, and the allocator balance (live bytes must return to the same level when the same bench is built, run and dropped three times in one process - a leaked future, payload or task shows as growth); joining of worker threads is observed as 'drop returns'.",
-    technique="Coq proof (task-level invariant corollaries) + scheduled exploration on mirrored source + drop-count observation on benches",
+    technique="Coq proof (task-level invariant corollaries; finite-state closure proof of the reply slot on constants translated from the source) + scheduled exploration on mirrored sources + drop-count / allocator-balance observation on benches",
     ref="DESIGN.md §5 C19"),
 })
 
